@@ -26,6 +26,10 @@ def g(v):
             return "(%s)%%Z" % v["Z"]
         if "p" in v:
             return "(" + ", ".join(g(x) for x in v["p"]) + ")"
+        if "bytes" in v:
+            if not v["bytes"]:
+                return "(@nil N)"
+            return "([" + "; ".join(str(c) for c in v["bytes"]) + "]%N)"
         if "str" in v:
             cps = [ord(ch) for ch in v["str"]]
             if not cps:
